@@ -142,7 +142,7 @@ def pick_iters(r, want_exact):
     return it
 
 
-def run_calls(obj, calls_fp, count_sweeps=False, with_callback=False):
+def run_calls(obj, calls_fp, count_sweeps=False, with_callback=False, rebind=False):
     """calls_fp: list of (iters, float potentials[, identity of the potential vector]).  Returns [(tables, sweeps or None, pf)].
     Consecutive calls on the same potential vector hand the oracle the SAME CliqueVector object (as LocalInference does on a
     restart and in its feasibility phase): an oracle that writes into the caller's potentials then answers the later call wrongly."""
@@ -154,8 +154,20 @@ def run_calls(obj, calls_fp, count_sweeps=False, with_callback=False):
         obj.iters = iters
         cnt = [0]
         cb = (lambda m: cnt.__setitem__(0, cnt[0] + 1)) if (count_sweeps or with_callback) else None
-        if key is None or key != last_key or cv is None:
+        if key is None or cv is None:
             cv = rggen.impl_cv(fp)
+        elif key != last_key:
+            if rebind:
+                # new parameters, same container: every entry re-bound to a new Factor (theta[cl] = theta[cl] + g is the ordinary idiom)
+                new = rggen.impl_cv(fp)
+                for k_ in list(cv):
+                    if k_ not in new:
+                        del cv[k_]
+                for k_ in new:
+                    cv[k_] = new[k_]
+                REBOUND[0] += 1
+            else:
+                cv = rggen.impl_cv(fp)
         else:
             REUSED[0] += 1
         last_key = key
@@ -167,6 +179,7 @@ def run_calls(obj, calls_fp, count_sweeps=False, with_callback=False):
 
 
 REUSED = [0]
+REBOUND = [0]
 
 
 def make_case(r, op, max_cells, scale=None):
@@ -191,12 +204,25 @@ def make_case(r, op, max_cells, scale=None):
     maximal = set(rggen.init_cliques(cl, False))
     support = 'maximal' if (op == 'gbp' and r.random() < 0.5) else 'all'
     same = r.random() < 0.5
+    killed = (op == 'lbp' and scale is None and r.random() < 0.3)
+    if killed:
+        same = True         # (-inf potentials first and finite ones later on one object is a separate matter: the persisted messages hold -inf)
     calls, pots0 = [], None
     for k in iters:
         if pots0 is None or not same:
             pots0 = rggen.gen_pots(r, dom, keys, support=maximal if support == 'maximal' else None, transposed=0.25 if r.random() < 0.4 else 0.0)
+            if killed:
+                # a structural zero that forbids one value of an attribute outright: a whole slice of one clique potential is -inf
+                ci_ = r.randrange(len(pots0))
+                cl_, fdom_, vals_ = pots0[ci_]
+                ax = r.randrange(len(fdom_))
+                if fdom_[ax][1] >= 2:
+                    v_ = r.randrange(fdom_[ax][1])
+                    import itertools as _it
+                    cells_ = list(_it.product(*[range(s_) for _, s_ in fdom_]))
+                    pots0[ci_] = (cl_, fdom_, [Fr(0) if c_[ax] == v_ else x_ for c_, x_ in zip(cells_, vals_)])
         calls.append((k, pots0, rggen.pots_float(pots0, scale)))
-    return dict(dom=dom, cl=cl, kind=kind, total=total, obj=obj, keys=keys, structure=structure, rip=rip, diam=diam,
+    return dict(dom=dom, cl=cl, kind=kind + ('+killed-value' if killed else ''), total=total, obj=obj, keys=keys, structure=structure, rip=rip, diam=diam,
                 support=support, calls=calls, op=op, scale=scale)
 
 
@@ -241,7 +267,7 @@ def request_of(c):
 def canon_of(c):
     return {'stream': 'oracle', 'op': c['op'], 'dom': c['dom'], 'cliques': c['cl'], 'total': c['total'], 'support': c['support'],
             'damping': getattr(c['obj'], 'damping', None),
-            'minimal': getattr(c['obj'], 'minimal', None), 'scale': c['scale'], 'with_callback': c.get('with_callback', False),
+            'minimal': getattr(c['obj'], 'minimal', None), 'scale': c['scale'], 'with_callback': c.get('with_callback', False), 'rebind': c.get('rebind', False),
             'calls': [{'iters': k, 'pots': gmgen.enc_pots(p)} for k, p, _ in c['calls']]}
 
 
@@ -337,13 +363,16 @@ def oracle_stream(res, drv, tier, seed, viol):
     cases.append(pinned_hps_case(r))
     for i, c in enumerate(cases):
         c['with_callback'] = (i % 2 == 1)
+        c['rebind'] = (i % 3 == 0)
     impls = []
     for c in cases:
         try:
-            impls.append(run_calls(c['obj'], [(k, fp, id(p)) for k, p, fp in c['calls']], count_sweeps=(c['op'] == 'hps'), with_callback=c['with_callback']))
+            impls.append(run_calls(c['obj'], [(k, fp, id(p)) for k, p, fp in c['calls']], count_sweeps=(c['op'] == 'hps'), with_callback=c['with_callback'],
+                                   rebind=c['rebind']))
         except Exception as e:      # an oracle that raises on a valid input is a failing input, never an infrastructure error
             impls.append(e)
     res.extra['calls_reusing_the_callers_potential_object'] = REUSED[0]
+    res.extra['calls_with_entries_rebound_in_the_same_container'] = REBOUND[0]
     resps = drv.run([request_of(c) for c in cases], timeout=3000) if drv else [None] * len(cases)
     for c, impl, resp in zip(cases, impls, resps):
         if isinstance(impl, Exception):
@@ -397,6 +426,6 @@ def replay(res, drv, rp):
         calls.append((e['iters'], pots, rggen.pots_float(pots, q.get('scale'))))
     c = dict(dom=dom, cl=cl, kind='replay', total=total, obj=obj, keys=None, structure=structure, rip=rggen.has_rip(cl),
              diam=rggen.factor_graph_diameter(dom, cl), support=q.get('support', 'all'), calls=calls, op=op, scale=q.get('scale'))
-    impl = run_calls(obj, [(k, fp, repr(p)) for k, p, fp in calls], count_sweeps=(op == 'hps'), with_callback=q.get('with_callback', False))
+    impl = run_calls(obj, [(k, fp, repr(p)) for k, p, fp in calls], count_sweeps=(op == 'hps'), with_callback=q.get('with_callback', False), rebind=q.get('rebind', False))
     resp = drv.one(request_of(c)) if drv else None
     check_case(res, c, impl, resp, viol)
